@@ -7,6 +7,7 @@ import (
 	"os"
 	"slices"
 	"strings"
+	"sync"
 
 	"golang.org/x/tools/go/ssa"
 
@@ -15,15 +16,18 @@ import (
 
 // Interp is the state shared (read-only after Init) by all paths.
 type Interp struct {
-	Prog     *ssa.Program
-	globals  map[*ssa.Global]*Value
-	inited   map[*ssa.Package]bool
-	models   map[string]*ssa.Function // std function name -> Go-source model
-	Trace    bool
-	repoPkgs map[*ssa.Package]bool
+	Prog                  *ssa.Program
+	globals               map[*ssa.Global]*Value
+	inited                map[*ssa.Package]bool
+	models                map[string]*ssa.Function // std function name -> Go-source model
+	Trace                 bool
+	repoPkgs              map[*ssa.Package]bool
 	fmtWrapErr, fmtFmtErr types.Type
 	errorsErrorString     types.Type
-	Known    map[string]bool // known-finding ids with status "known"
+	Known                 map[string]bool // known-finding ids with status "known"
+	mergeMu               sync.Mutex
+	mergeCache            map[*ssa.Function]*mergeInfo
+	NoMerge               bool
 }
 
 type deferred struct {
@@ -398,6 +402,9 @@ func (p *Path) callSSA(caller *frame, callpos token.Pos, fn *ssa.Function, args 
 	}
 	if fn.TypeParams().Len() > 0 && len(fn.TypeArgs()) == 0 {
 		p.abortf("uninstantiated generic function %s", fn)
+	}
+	if r, ok := p.tryMergeCall(fn, args, env); ok {
+		return r
 	}
 	p.depth++
 	if p.depth > 400 {
